@@ -35,6 +35,32 @@ Proof.
   - intros [= <- _]. reflexivity.
 Qed.
 
+From Lospan Require Import Model.Steps Proof.SchedDataProof.
+(* "Copies of one uplink received through several gateways produce a single answer": ANY number of handlers
+   working at the same time on frames carrying one counter, EVERY schedule, strict-counter device: at most one
+   downlink leaves (and the frame is recorded at most once, C03). *)
+Theorem C09_concurrent_copies_one_answer :
+  forall (E D : list N -> list N -> list N) apps c,
+    (c < 65535)%N ->
+    forall (copies : list (frame * rxpacket * nat * N)), Forall (fun x => fcnt (fst (fst (fst x))) = c) copies ->
+    forall st r, ds_row st = Some r -> d_relaxed r = false -> fb_down st ->
+    forall sched fuel,
+      let res := interleaveN apps sched fuel st
+                   (map (fun x => uplink_prog E D (fst (fst (fst x))) (snd (fst (fst x))) (snd (fst x)) (snd x)) copies) [] in
+      (length (ds_inbox (fst res)) <= S (length (ds_inbox st)))%nat /\ (length (downs (snd res)) <= 1)%nat.
+Proof. exact concurrent_copies_recorded_and_answered_once. Qed.
+Theorem C09_two_copies_one_answer :
+  forall (E D : list N -> list N -> list N) apps f1 rx1 n1 now1 f2 rx2 n2 now2,
+    (fcnt f1 < 65535)%N -> fcnt f2 = fcnt f1 ->
+    forall st r, ds_row st = Some r -> d_relaxed r = false -> fb_down st ->
+    forall sched fuel,
+      let res := interleave apps sched fuel st (uplink_prog E D f1 rx1 n1 now1) (uplink_prog E D f2 rx2 n2 now2) [] in
+      (length (ds_inbox (fst res)) <= S (length (ds_inbox st)))%nat /\ (length (downs (snd res)) <= 1)%nat.
+Proof. exact two_copies_recorded_and_answered_once. Qed.
+
+
 Print Assumptions C09_at_most_one_answer.
 Print Assumptions C09_rejected_not_answered.
 Print Assumptions C09_ack_flag_cleared.
+Print Assumptions C09_concurrent_copies_one_answer.
+Print Assumptions C09_two_copies_one_answer.
